@@ -719,7 +719,10 @@ def run(tier, seed):
 
     t_build = time.time() - t_start
     prof_default, prof_fast, dis = shipped_profiles()
-    guarded = cse_guard_probe()
+    # apply_cse was repaired in /repo (0ecd3ac): the model is the guarded variant, always;
+    # the probe is only recorded in the evidence
+    probe_guarded = cse_guard_probe()
+    guarded = True
     g = C.cbool(guarded)
     tasks = make_tasks(tier, seed)
     t0 = time.time()
@@ -859,8 +862,10 @@ def run(tier, seed):
             kinds = coq_fail.get((r["idx"], code), set())
             py_bad = bool(o["diffs"])
             mech = None
-            if (py_bad or o["free"] or o["lost"] or kinds - {3}) and not guarded:
+            if (py_bad or o["free"] or o["lost"] or kinds - {3}):
                 mech = mechanism(r, o)
+                if mech not in known:  # only findings listed in known_findings.json are tolerated
+                    mech = None
             ident["output_list"] = [(n, ir_str(ir)) for n, ir in o["ir_out"]][:60]
             if py_bad != (1 in kinds) and ok:
                 disagreements.append(dict(ident, python_diffs=o["diffs"], coq_kinds=sorted(kinds)))
